@@ -258,3 +258,76 @@ def find_namespace_guards(cfg):
                 if r is not None:
                     out.append((n, r))
     return out
+
+
+# ---------------------------------------------------------------------------
+# taint / writes through argument-derived names (R08.2, R19.3, R16.3)
+
+FRESH_BUILTINS = ("iter", "next", "enumerate", "zip", "reversed", "sorted", "list", "tuple", "set")
+
+
+def tainted_names(fi, seeds, through_calls=True):
+    """Names whose value may BE (or be reached from) an object named by the
+    seed names.  Flow-insensitive.  A value produced by calling something that
+    is not rooted at a tainted name (a constructor, a factory, memo.get) is
+    treated as a fresh/untainted object."""
+    t = set(seeds)
+    changed = True
+    while changed:
+        changed = False
+        for n in walk_no_nested(fi.node):
+            tgt, val = None, None
+            if isinstance(n, ast.Assign):
+                tgt, val = n.targets, n.value
+            elif isinstance(n, (ast.For, ast.AsyncFor)):
+                tgt, val = [n.target], n.iter
+            elif isinstance(n, ast.comprehension):
+                tgt, val = [n.target], n.iter
+            if tgt is None:
+                continue
+            if isinstance(val, ast.Call):
+                fv = val.func
+                while isinstance(fv, (ast.Attribute, ast.Subscript)):
+                    fv = fv.value
+                rooted = isinstance(fv, ast.Name) and fv.id in t
+                if isinstance(val.func, ast.Name) and val.func.id not in FRESH_BUILTINS:
+                    continue  # calling a (possibly tainted) callable/factory yields a new object
+                if isinstance(val.func, ast.Attribute) and val.func.attr == "__class__":
+                    continue  # X.__class__(...) constructs a new object
+                if not rooted and call_name(val) not in FRESH_BUILTINS:
+                    continue
+                if not through_calls and not rooted:
+                    continue
+            if names_in(val) & t:
+                for tt in tgt:
+                    for nm in ast.walk(tt):
+                        if isinstance(nm, ast.Name) and isinstance(nm.ctx, ast.Store) and nm.id not in t:
+                            t.add(nm.id)
+                            changed = True
+    return t
+
+
+def _root_name(e):
+    while isinstance(e, (ast.Attribute, ast.Subscript)):
+        e = e.value
+    if isinstance(e, ast.Call):
+        return _root_name(e.func)
+    return e.id if isinstance(e, ast.Name) else None
+
+
+def writes_rooted_at(fi, names, extra_mutators=()):
+    """AST nodes that store to, delete from, or call a mutator on an object
+    reached from one of `names` (x.a = .., x.a[i] = .., del x[i], x.a.append())."""
+    out = []
+    muts = set(MUTATORS) | set(extra_mutators)
+    for n in walk_no_nested(fi.node):
+        if isinstance(n, ast.Call) and isinstance(n.func, ast.Attribute) and n.func.attr in muts:
+            if _root_name(n.func.value) in names:
+                out.append(n)
+        elif isinstance(n, ast.Call) and isinstance(n.func, ast.Name) and n.func.id in ("setattr", "delattr") and n.args:
+            if _root_name(n.args[0]) in names:
+                out.append(n)
+        elif isinstance(n, (ast.Attribute, ast.Subscript)) and isinstance(n.ctx, (ast.Store, ast.Del)):
+            if _root_name(n.value) in names:
+                out.append(n)
+    return out
